@@ -1,14 +1,14 @@
-\* exhaustive: 2 aggregation objects, every boundary list within {1,3} over ranks 0..4, <= 3 Aggregate and
-\* <= 4 New/Merge/Diff steps in any order (Merge/Diff results are aggregated into and merged again)
+\* direct 2 objects, ranks 0..4, every boundary list within {1,3}, <=2 Aggregate, <=4 New/Merge/Diff
+\* (tools/props/C07.py generates the same text; thorough tier uses larger constants)
 CONSTANTS MaxRank = 4
   BoundSets = {{}, {1}, {3}, {1,3}}
   Tables = {"D_small"}
-  MMChoices = {TRUE, FALSE}
+  MMChoices = {TRUE}
   Mode = "direct" NSlots = 2 NKeys = 1 ReaderCfgs = {1}
-  MaxAgg = 3 MaxOps = 4 Balanced = FALSE Dev = {} Hist = FALSE
+  MaxAgg = 2 MaxOps = 4 Balanced = FALSE Hist = FALSE
+  Dev = {}
 INIT Init
 NEXT Next
 VIEW View
 CONSTRAINT Bound
-INVARIANTS TypeOK BucketsPartition BucketRule EveryValueInOneBucket SumExact MinMaxExact PointIsSummary
-  MergeIsHomomorphism DiffIsInverse DiffAltOnlyAfterDiff
+INVARIANTS TypeOK BucketsPartition BucketRule EveryValueInOneBucket SumExact MinMaxExact PointIsSummary ReadersAgree MergeIsHomomorphism DiffIsInverse DiffAltOnlyAfterDiff
